@@ -665,8 +665,9 @@ namespace xtl
     template <class CT, class CB>
     void xoptional<CT, CB>::swap(xoptional& other)
     {
-        std::swap(m_value, other.m_value);
-        std::swap(m_flag, other.m_flag);
+        using std::swap;
+        swap(m_value, other.m_value);
+        swap(m_flag, other.m_flag);
     }
 
     // Comparison
